@@ -28,3 +28,35 @@ package cache
 //@ func (*RepoCacheBug).ResolveComment
 //@   trusted
 //@   modifies nothing
+
+// bugOps counts operations appended to bugs through the cache (every *Raw editing method appends one).
+//@ ghost var bugOps int
+
+// opImported(key, value): at the time it is asked, exactly one operation of the bug at hand carries that metadata.
+//@ spec func opImported(key string, value string) bool
+
+//@ func (*CachedEntityBase).ResolveOperationWithMetadata
+//@   trusted
+//@   opt interior_ok
+//@   modifies nothing
+//@   ensures (err == nil) == opImported(key, value)
+
+//@ func (*BugCache).AddCommentRaw
+//@ func (*BugCache).ChangeLabelsRaw
+//@ func (*BugCache).ForceChangeLabelsRaw
+//@ func (*BugCache).OpenRaw
+//@ func (*BugCache).CloseRaw
+//@ func (*BugCache).SetTitleRaw
+//@ func (*BugCache).EditCreateCommentRaw
+//@ func (*BugCache).EditCommentRaw
+//@ func (*BugCache).SetMetadataRaw
+//@   trusted
+//@   modifies bugOps, repoWrites
+//@   ensures bugOps >= old(bugOps) && (err == nil ==> bugOps == old(bugOps) + 1)
+
+// Reading the compiled snapshot or the id of a cached entity appends nothing.
+//@ func (*CachedEntityBase).Snapshot
+//@ func (*CachedEntityBase).Id
+//@   trusted
+//@   opt interior_ok
+//@   modifies nothing
